@@ -49,6 +49,11 @@ func verifMakePA(i int) *verifPA {
 		spec.Mtls = &v1beta1.PeerAuthentication_MutualTLS{Mode: v1beta1.PeerAuthentication_MutualTLS_Mode(p.mode)}
 	}
 	switch p.selector {
+	case 0:
+		// "no selector" is written either by omitting it or as a present-but-empty one (selector: {}): the same policy
+		if vp.Choice(pre+".emptySelector", 2) == 1 {
+			spec.Selector = &typev1beta1.WorkloadSelector{}
+		}
 	case 1:
 		spec.Selector = &typev1beta1.WorkloadSelector{MatchLabels: map[string]string{"app": "x"}}
 	case 2:
